@@ -88,6 +88,10 @@ func treeToGabi(t any) any {
 		if h, ok := isLeafB(v); ok {
 			return base64.StdEncoding.EncodeToString(unhb(h))
 		}
+		if raw, ok := v["$raw"].(string); ok && len(v) == 1 {
+			// a member written by the real encoder at generation time, passed through verbatim
+			return json.RawMessage(raw)
+		}
 		r := map[string]any{}
 		for k, x := range v {
 			r[k] = treeToGabi(x)
